@@ -9,8 +9,8 @@ import (
 	"context"
 	"encoding/json"
 	"errors"
-	"io"
 	"fmt"
+	"io"
 	"net"
 	"net/http"
 	"os"
@@ -687,6 +687,11 @@ func genC05(seed, index uint64, tier string) *Plan {
 		cs.RawFiles["templates/migrate-upgrade.yaml"] = hk("pre-upgrade", "0")
 		cs.RawFiles["templates/jobs/migrate-rollback.yaml"] = hk("pre-rollback", "0")
 		cs.RawFiles["templates/a-migrate-both.yaml"] = hk("post-install,post-upgrade", "0")
+	}
+	if g.Chance(0.03) {
+		// one file that renders to many hundreds of documents (a range over a list): their order within the file is part of
+		// the output however many there are
+		cs.RawFiles["templates/many.yaml"] = "{{- range $i := until 560 }}\n---\napiVersion: v1\nkind: ConfigMap\nmetadata:\n  name: c05-many-{{ $i }}\n{{- if eq (mod $i 100) 0 }}\n  annotations:\n    \"helm.sh/hook\": post-install\n{{- end }}\ndata:\n  i: \"{{ $i }}\"\n{{- end }}\n"
 	}
 	if g.Chance(0.08) {
 		// two templates fail: the reported error must always be the same one
